@@ -232,9 +232,10 @@ def c03_streams(ctx):
     return [s, glob_base_stream("C03", ctx)]
 
 PLANS["C03"] = dict(
-    modules=["Wx.Glob.C03", "Wx.Glob.IgnoreFilterC", "Wx.Glob.Prefix"],
+    modules=["Wx.Glob.C03", "Wx.Glob.IgnoreFilterC", "Wx.Glob.Prefix", "Wx.Glob.GlobThm", "Wx.Glob.GlobPath"],
     theorems=["Sp.IF.matchPathC_eq_spec", "Sp.C03.go_eq_spec", "Sp.C03.spec_congr", "Sp.C03.spec_keys_congr", "Sp.C03.scoping_law", "Sp.C03.goOld_ne_spec",
-              "Sp.C03.ancestor_spec", "Sp.Pfx.body_prefix_shape", "Sp.IF.splitComps_ok"],
+              "Sp.C03.ancestor_spec", "Sp.Pfx.body_prefix_shape", "Sp.IF.splitComps_ok",
+              "Sp.Glob.name_ignores_iff", "Sp.Glob.up_iff", "Sp.Glob.parentOf_join_snoc", "Sp.Glob.mtch_name_join", "Sp.Glob.addLine_name", "Sp.Glob.addLine_ok", "Sp.Glob.parseGo_fuel"],
     bins=[("lib", ["wxignore", "wxglob"])],
     streams=c03_streams,
     sources=["crates/ignore-files/src/filter.rs", "crates/filterer/ignore/src/lib.rs"],
